@@ -411,7 +411,6 @@ def frame(ctx):
             return TM
         obj = SymObj(cls, {'_VolterraDislocation__find_transform': find}, 'self')
         ev = SymEval(aliases)
-        ev.skip = _is_cleanup
         ev.globals = {'miller': Mil(), 'axes_check': lambda a: (rec.append(('axes_check', a)) or TM), 'Box': lambda: 'DEFAULTBOX', 'dislocation_system_transform': find}
         try:
             p = [q for q in ev.run_fn(sfn, [obj, Cst(), 'BURGERS'], dict(kw, box='BOX', m='y', n='z')) if q.done == 'return']
@@ -443,7 +442,6 @@ def frame(ctx):
     for tag, kw in (('line without plane', dict(ξ_uvw='XI')), ('Miller indices together with a transform', dict(ξ_uvw='XI', slip_hkl='HKL', transform='T')), ('axes together with transform', dict(axes='A', transform='T'))):
         obj = SymObj(cls, {'_VolterraDislocation__find_transform': lambda *a, **k: TM}, 'self')
         ev = SymEval(aliases)
-        ev.skip = _is_cleanup
         ev.globals = {'miller': PyStub(), 'axes_check': lambda a: TM, 'Box': lambda: 'DEFAULTBOX', 'dislocation_system_transform': lambda *a, **k: TM}
         try:
             paths = ev.run_fn(sfn, [obj, PyStub(), 'B'], dict(kw, box='BOX'))
@@ -451,11 +449,28 @@ def frame(ctx):
         except WouldRaise:
             ok = True
         ctx.ob('FRAME', loc, '%s: refused' % tag, ok, node=sfn, key='refuse ' + tag)
-    # Burgers round-off is relative
-    cl = [s for s in sfn.body if _is_cleanup(s)]
-    ctx.need(len(cl) == 1, 'VolterraDislocation.solve: the Burgers round-off statement is not recognisable')
-    mask_on(ctx, cl[0], [sp.Rational(5, 10 ** 10), -sp.Rational(5, 10 ** 10), sp.Integer(0), sp.Rational(1, 10 ** 21)], {'tol': sp.Rational(1, 10 ** 8)}, 'FRAME', loc,
-            'the Burgers round-off removes only components that are tiny relative to the largest one (a Burgers vector given in metres is kept)', [False, False, True, True])
+    # Burgers round-off is relative: solve() interpreted with concrete Burgers vectors at two scales (no orientation given: identity rotation)
+    R = sp.Rational
+    for tag, bc, want in (('a Burgers vector in metres (5e-10) with a 1e-21 round-off component', [R(5, 10 ** 10), -R(5, 10 ** 10), R(1, 10 ** 21)], [R(5, 10 ** 10), -R(5, 10 ** 10), 0]),
+                          ('components of order one with a 1e-12 round-off component', [R(1, 2), -R(1, 2), R(1, 10 ** 12)], [R(1, 2), -R(1, 2), 0]),
+                          ('a small but real component (one thousandth of the largest)', [R(1, 2), R(1, 2000), 0], [R(1, 2), R(1, 2000), 0])):
+        class Cst2(PyStub):
+            def transform(self, T):
+                return ('CT', T)
+
+        class Mil3(PyStub):
+            def vector_crystal_to_cartesian(self, v, box, _b=bc):
+                return arr(list(_b))
+        obj = SymObj(cls, {'_VolterraDislocation__find_transform': lambda *a, **k: TM}, 'self')
+        ev = SymEval(aliases)
+        ev.globals = {'miller': Mil3(), 'axes_check': lambda a: TM, 'Box': lambda: 'DEFAULTBOX', 'dislocation_system_transform': lambda *a, **k: TM}
+        try:
+            p = [q for q in ev.run_fn(sfn, [obj, Cst2(), 'BURGERS'], dict(box='BOX')) if q.done == 'return']
+        except Opaque as e:
+            raise AnalysisError('VolterraDislocation.solve (%s): %s' % (tag, e))
+        gb = obj.attrs.get('_VolterraDislocation__burgers')
+        ok = len(p) == 1 and gb is not None and np.shape(gb) == (3,) and all(is_zero(sp.nsimplify(x_) - sp.nsimplify(y_)) for x_, y_ in zip(gb, want))
+        ctx.ob('FRAME', loc, '%s: round-off removal drops only components that are tiny relative to the largest one' % tag, bool(ok), 'stored %s' % (None if gb is None else [str(x_) for x_ in gb],), node=sfn, key='burgers scale ' + tag[:40])
     # __find_transform and its sibling
     ftn = ctx.fn_opt(VD, 'VolterraDislocation.__find_transform')      # absent when solve() uses the public function directly (routing is judged above either way)
     xi_c = symarray('x', (3,), real=True)
